@@ -232,6 +232,7 @@ func runC01(c *Ctx) {
 		n = 400
 	}
 	wireFraming(c, n)
+	runInprocPipes(c) // inproc has no wire: the established connection as a machine (Props.C01.inproc_pipe_delivers_what_was_sent)
 	runFanoutPartialFailure(c)
 	runFanoutOwnership(c)
 	runRecvKeepsBytes(c)
